@@ -5,7 +5,9 @@ import (
 	"flag"
 	"fmt"
 	"hash/fnv"
+	"runtime"
 	"sort"
+	"sync"
 
 	"github.com/yaricom/goNEAT/v4/neat/network"
 
@@ -99,6 +101,7 @@ type replayer struct {
 	obsv     map[string]*observation
 	seen     map[uint64]bool
 	stats    map[string]int
+	classes  map[string]int
 }
 
 func (r *replayer) observe(key string, size int, format string, a ...interface{}) {
@@ -451,8 +454,8 @@ func (rp *replayer) runNet(g *group) {
 		if _, err := x.std.MaxActivationDepthWithCap(0); err == nil {
 			bad += "MaxActivationDepthWithCap(0) succeeded on a modular network (documented: unsupported for modular networks); "
 		}
-		if ok, err := x.std.Relax(1, intDelta); err == nil || ok {
-			bad += "Network.Relax succeeded; "
+		if ok, err := x.std.Relax(1, intDelta); ok || stdErrClass(err) != m.RelaxErr {
+			bad += fmt.Sprintf("Network.Relax returned (%v, %v), specification (false, %q); ", ok, err, m.RelaxErr)
 		}
 		depth := -1
 		if m.Acyclic {
@@ -521,7 +524,7 @@ func replayModular(args []string) int {
 	maxPairs := fs.Int("maxpairs", 6, "suffixes run after each history (rotating through the network's suffixes)")
 	_ = fs.Parse(args)
 	rp := &replayer{rep: &vhu.Report{Command: "replay-modular"}, internal: map[string]int{}, obsv: map[string]*observation{},
-		seen: map[uint64]bool{}, stats: map[string]int{}}
+		seen: map[uint64]bool{}, stats: map[string]int{}, classes: map[string]int{}}
 	groups := map[string]*group{}
 	var order []string
 	err := vhu.ReadNDJSON(*cases, func(line []byte) error {
@@ -568,56 +571,66 @@ func replayModular(args []string) int {
 		return 2
 	}
 	sort.Strings(order)
-	classes := map[string]int{}
-	for gi, key := range order {
-		g := groups[key]
-		rp.rep.Cases += 1 + len(g.hists) + len(g.sufs) + len(g.pairs)
-		if p := vhu.Guard(func() {
-			if g.meta != nil {
-				switch {
-				case g.meta.Std && g.meta.Fast:
-					classes["law speaks about both solvers"]++
-				case g.meta.Std:
-					classes["law speaks about the standard solver only"]++
-				case g.meta.Fast:
-					classes["law speaks about the fast solver only"]++
-				default:
-					classes["outside the classes of the settle law (conformance and flush only)"]++
-				}
-				rp.runNet(g)
+	// the networks are independent: shard them over a few workers, each with its own report, and merge
+	nw := runtime.NumCPU()
+	if nw > 8 {
+		nw = 8
+	}
+	if nw < 1 {
+		nw = 1
+	}
+	parts := make([]*replayer, nw)
+	var wg sync.WaitGroup
+	for w := 0; w < nw; w++ {
+		parts[w] = &replayer{rep: &vhu.Report{Command: "replay-modular"}, internal: map[string]int{}, obsv: map[string]*observation{},
+			seen: map[uint64]bool{}, stats: map[string]int{}, classes: map[string]int{}}
+		wg.Add(1)
+		go func(w int) {
+			defer wg.Done()
+			for gi := w; gi < len(order); gi += nw {
+				parts[w].runGroup(groups[order[gi]], gi, *maxPairs)
 			}
-			for i := range g.hists {
-				h := &g.hists[i]
-				rp.runHist(g, h, g.sufs, *maxPairs, gi+i)
-				rp.countNontrivial(g, h)
-				if len(h.Log) > 0 && i%97 == 0 {
-					rp.rep.Sample(map[string]interface{}{"net": g.raw, "ops": opsString(h.Ops), "last": h.Log[len(h.Log)-1]})
-				}
+		}(w)
+	}
+	wg.Wait()
+	classes := rp.classes
+	for _, p := range parts {
+		rp.rep.Cases += p.rep.Cases
+		rp.rep.Evaluations += p.rep.Evaluations
+		rp.rep.Nontrivial += p.rep.Nontrivial
+		for _, f := range p.rep.Failures {
+			rp.rep.Fail(f)
+		}
+		if n, ok := p.rep.Extra["failures_dropped"].(int); ok {
+			rp.stats["failures_dropped"] += n
+		}
+		for _, x := range p.rep.Samples {
+			rp.rep.Sample(x)
+		}
+		for k, v := range p.internal {
+			rp.internal[k] += v
+		}
+		for _, e := range p.intEx {
+			if len(rp.intEx) < 6 {
+				rp.intEx = append(rp.intEx, e)
 			}
-			// every suffix is also a history of a fresh instance
-			for i := range g.sufs {
-				s := g.sufs[i]
-				s.Flushed = nil
-				// the recorded internal state is that of the flushed instance: only compare when the control flags were down
-				fresh := true
-				for _, c := range s.Con0 {
-					fresh = fresh && c == 0
-				}
-				if fresh {
-					rp.runHist(g, &s, nil, 0, 0)
-				}
-				rp.countNontrivial(g, &s)
+		}
+		for k, v := range p.stats {
+			rp.stats[k] += v
+		}
+		for k, v := range p.classes {
+			classes[k] += v
+		}
+		for k, o := range p.obsv {
+			t := rp.obsv[k]
+			if t == nil {
+				t = &observation{size: 1 << 30}
+				rp.obsv[k] = t
 			}
-			for _, p := range g.pairs {
-				h, s := p[0], p[1]
-				if len(s.Ops) > 0 {
-					rp.runHist(g, &h, []seqCase{s}, 1, 0)
-				} else {
-					rp.runHist(g, &h, nil, 0, 0)
-				}
+			t.count += o.count
+			if o.size < t.size {
+				t.size, t.example = o.size, o.example
 			}
-		}); p != "" {
-			rp.fail("panic", fmt.Sprintf("panic: %s net=%s", p, g.raw), g.metaCase())
 		}
 	}
 	var obsList []map[string]interface{}
@@ -634,6 +647,58 @@ func replayModular(args []string) int {
 		"observations": obsList}
 	code := rp.rep.Write(*out)
 	return code
+}
+
+// runGroup replays everything recorded for one network
+func (rp *replayer) runGroup(g *group, gi int, maxPairs int) {
+	rp.rep.Cases += 1 + len(g.hists) + len(g.sufs) + len(g.pairs)
+	if p := vhu.Guard(func() {
+		if g.meta != nil {
+			switch {
+			case g.meta.Std && g.meta.Fast:
+				rp.classes["law speaks about both solvers"]++
+			case g.meta.Std:
+				rp.classes["law speaks about the standard solver only"]++
+			case g.meta.Fast:
+				rp.classes["law speaks about the fast solver only"]++
+			default:
+				rp.classes["outside the classes of the settle law (conformance and flush only)"]++
+			}
+			rp.runNet(g)
+		}
+		for i := range g.hists {
+			h := &g.hists[i]
+			rp.runHist(g, h, g.sufs, maxPairs, gi+i)
+			rp.countNontrivial(g, h)
+			if len(h.Log) > 0 && i%97 == 0 {
+				rp.rep.Sample(map[string]interface{}{"net": g.raw, "ops": opsString(h.Ops), "last": h.Log[len(h.Log)-1]})
+			}
+		}
+		// every suffix is also a history of a fresh instance
+		for i := range g.sufs {
+			s := g.sufs[i]
+			s.Flushed = nil
+			// the recorded internal state is that of the flushed instance: only compare when the control flags were down
+			fresh := true
+			for _, c := range s.Con0 {
+				fresh = fresh && c == 0
+			}
+			if fresh {
+				rp.runHist(g, &s, nil, 0, 0)
+			}
+			rp.countNontrivial(g, &s)
+		}
+		for _, p := range g.pairs {
+			h, s := p[0], p[1]
+			if len(s.Ops) > 0 {
+				rp.runHist(g, &h, []seqCase{s}, 1, 0)
+			} else {
+				rp.runHist(g, &h, nil, 0, 0)
+			}
+		}
+	}); p != "" {
+		rp.fail("panic", fmt.Sprintf("panic: %s net=%s", p, g.raw), g.metaCase())
+	}
 }
 
 // non-trivial: a distinct call sequence on which the settle law actually bites for a network whose modules add to
